@@ -236,6 +236,8 @@ func c20(r *core.Report, p *core.Prog, thorough bool) {
 		r.Pass("C20.whole-slice", "addStat:no-constant-element", p.Pos(addStat.Pos()), "no decoded event slice is indexed with a constant")
 	}
 	c20MergeFuncs(r, p)
+	c20FoldCarried(r, p)
+	c20RecordShape(r, p, addStat)
 }
 
 // c20IsGeneric: the call's callee is (an instance of) the generic function pkgEvent.name.
@@ -712,4 +714,317 @@ func c20MergeFuncs(r *core.Report, p *core.Prog) {
 		}
 	}
 	r.Floor("C20.merge-func", "merge functions passed to withEventMerge", n, 8)
+}
+
+// c20FoldCarried: a loop that folds events through a mergeEventsFunc reads the left
+// operand of each merge from a place into which the previous merge's result was written.
+func c20FoldCarried(r *core.Report, p *core.Prog) {
+	r.Rule("C20.fold-carried", "in a loop that calls a mergeEventsFunc, the left operand is read from a location (the data of the event kept in a map, or a map entry) into which the result of the merge is stored on every path to the next iteration")
+	type class struct {
+		kind string
+		m    ssa.Value
+	}
+	lookupMap := func(v ssa.Value) ssa.Value {
+		// v is the value (or extract #0) of a Lookup in a map
+		if ex, ok := v.(*ssa.Extract); ok && ex.Index == 0 {
+			v = ex.Tuple
+		}
+		if lk, ok := v.(*ssa.Lookup); ok {
+			if _, isMap := lk.X.Type().Underlying().(*types.Map); isMap {
+				return lk.X
+			}
+		}
+		return nil
+	}
+	var classesOf func(v ssa.Value, d int, out map[class]bool)
+	classesOf = func(v ssa.Value, d int, out map[class]bool) {
+		if d > 6 {
+			return
+		}
+		if m := lookupMap(v); m != nil {
+			out[class{"map", m}] = true
+			return
+		}
+		switch x := v.(type) {
+		case *ssa.Phi:
+			for _, e := range x.Edges {
+				classesOf(e, d+1, out)
+			}
+		case *ssa.Extract:
+			classesOf(x.Tuple, d+1, out)
+		case *ssa.Call:
+			// fromEvent(obj.Data)
+			for _, a := range x.Call.Args {
+				classesOf(a, d+1, out)
+			}
+		case *ssa.UnOp:
+			if fa, ok := x.X.(*ssa.FieldAddr); ok && x.Op == token.MUL {
+				if m := lookupMap(fa.X); m != nil {
+					out[class{"data-of", m}] = true
+				}
+				return
+			}
+			classesOf(x.X, d+1, out)
+		case *ssa.ChangeType:
+			classesOf(x.X, d+1, out)
+		case *ssa.MakeInterface:
+			classesOf(x.X, d+1, out)
+		case *ssa.TypeAssert:
+			classesOf(x.X, d+1, out)
+		}
+	}
+	var derives func(v ssa.Value, from ssa.Value, d int) bool
+	derives = func(v, from ssa.Value, d int) bool {
+		if v == from {
+			return true
+		}
+		if d > 6 {
+			return false
+		}
+		switch x := v.(type) {
+		case *ssa.Extract:
+			return derives(x.Tuple, from, d+1)
+		case *ssa.UnOp:
+			return derives(x.X, from, d+1)
+		case *ssa.ChangeType:
+			return derives(x.X, from, d+1)
+		case *ssa.MakeInterface:
+			return derives(x.X, from, d+1)
+		case *ssa.Phi:
+			for _, e := range x.Edges {
+				if !derives(e, from, d+1) {
+					return false
+				}
+			}
+			return len(x.Edges) > 0
+		}
+		return false
+	}
+	n := 0
+	for _, top := range p.FuncsIn(pkgEvent) {
+		for _, fn := range withClosures(top) {
+			if fn.Blocks == nil || len(fn.TypeArgs()) > 0 {
+				continue // generic bodies are checked once, uninstantiated
+			}
+			for _, b := range fn.Blocks {
+				for _, in := range b.Instrs {
+					m, ok := in.(*ssa.Call)
+					if !ok || m.Common().IsInvoke() || m.Common().StaticCallee() != nil || len(m.Call.Args) != 2 {
+						continue
+					}
+					if !strings.Contains(m.Call.Value.Type().String(), "mergeEventsFunc") {
+						continue
+					}
+					loops := core.LoopsContaining(fn, b)
+					if len(loops) == 0 {
+						continue
+					}
+					n++
+					l := loops[len(loops)-1]
+					key := fmt.Sprintf("%s:fold#%d", fn.String(), n)
+					reads := map[class]bool{}
+					classesOf(m.Call.Args[0], 0, reads)
+					if len(reads) == 0 {
+						r.Fail("C20.fold-carried", key, p.Pos(m.Pos()), "where the left operand comes from is not recognised")
+						continue
+					}
+					okAny := false
+					detail := ""
+					for c := range reads {
+						isWrite := func(x ssa.Instruction) bool {
+							switch w := x.(type) {
+							case *ssa.MapUpdate:
+								return c.kind == "map" && w.Map == c.m && derives(w.Value, m, 0)
+							case *ssa.Call:
+								if c.kind != "data-of" || len(w.Call.Args) != 2 {
+									return false
+								}
+								cal := w.Common().StaticCallee()
+								if cal == nil || !strings.HasPrefix(cal.Name(), "setEventData") {
+									return false
+								}
+								return lookupMap(w.Call.Args[0]) == c.m && derives(w.Call.Args[1], m, 0)
+							case *ssa.Store:
+								if c.kind != "data-of" {
+									return false
+								}
+								if fa, ok := w.Addr.(*ssa.FieldAddr); ok && core.FieldOf(fa) != nil && core.FieldOf(fa).Name() == "Data" {
+									return lookupMap(fa.X) == c.m && derives(w.Val, m, 0)
+								}
+							}
+							return false
+						}
+						hdr := l.Header
+						path, _, found := core.PathQuery{Fn: fn, Start: m, Barrier: isWrite, EdgeOK: core.FeasibleEdge,
+							Target: func(x ssa.Instruction) bool { return x.Block() == hdr && x == hdr.Instrs[0] }}.Find()
+						if !found {
+							okAny = true
+						} else {
+							detail = "next iteration reachable without storing the merged data where the left operand is read from: " + p.PathString(path)
+						}
+					}
+					r.Check(okAny, "C20.fold-carried", key, p.Pos(m.Pos()), "each merge starts from the previous result; "+detail)
+				}
+			}
+		}
+	}
+	r.Floor("C20.fold-carried", "loops folding through a mergeEventsFunc", n, 1)
+}
+
+// c20RecordShape: a handler that builds records as struct literals and hands the slice to
+// a storing helper sets every field the helper reads from the elements.
+func c20RecordShape(r *core.Report, p *core.Prog, addStat *ssa.Function) {
+	r.Rule("C20.record-shape", "when addStat passes a slice whose elements are all struct literals built in addStat to a helper of the event package, every element field the helper reads is set by every such literal (a field read but never set is always the zero value: the row key or amount is lost)")
+	// literal fields: Alloc (complit) with FieldAddr stores
+	litFields := func(al *ssa.Alloc) map[string]bool {
+		out := map[string]bool{}
+		for _, ref := range *al.Referrers() {
+			if fa, ok := ref.(*ssa.FieldAddr); ok {
+				for _, r2 := range *fa.Referrers() {
+					if st, ok := r2.(*ssa.Store); ok && st.Addr == ssa.Value(fa) {
+						if f := core.FieldOf(fa); f != nil {
+							out[f.Name()] = true
+						}
+					}
+				}
+			}
+		}
+		return out
+	}
+	// element sources of a slice value: literals (allocs) or unknown
+	var sources func(v ssa.Value, seen map[ssa.Value]bool) (lits []*ssa.Alloc, unknown bool)
+	sources = func(v ssa.Value, seen map[ssa.Value]bool) ([]*ssa.Alloc, bool) {
+		if seen[v] {
+			return nil, false
+		}
+		seen[v] = true
+		switch x := v.(type) {
+		case *ssa.Phi:
+			var out []*ssa.Alloc
+			unk := false
+			for _, e := range x.Edges {
+				l, u := sources(e, seen)
+				out = append(out, l...)
+				unk = unk || u
+			}
+			return out, unk
+		case *ssa.MakeSlice:
+			if l, ok := core.ConstInt(x.Len); ok && l == 0 {
+				return nil, false
+			}
+			return nil, true
+		case *ssa.Slice:
+			if mk, ok := x.X.(*ssa.Alloc); ok && mk.Comment == "makeslice" {
+				if h, isC := core.ConstInt(x.High); isC && h == 0 {
+					return nil, false
+				}
+			}
+			return nil, true
+		case *ssa.Const:
+			return nil, x.Value != nil
+		case *ssa.Call:
+			if core.CalleeName(x.Common()) != "builtin.append" {
+				return nil, true
+			}
+			base, unk := sources(x.Call.Args[0], seen)
+			els, ok := arrayLiteral(x.Call.Args[1])
+			if !ok {
+				return base, true
+			}
+			for _, e := range els {
+				ld, ok := e.(*ssa.UnOp)
+				if !ok || ld.Op != token.MUL {
+					return base, true
+				}
+				al, ok := ld.X.(*ssa.Alloc)
+				if !ok || al.Comment != "complit" {
+					return base, true
+				}
+				base = append(base, al)
+			}
+			return base, unk
+		}
+		return nil, true
+	}
+	// fields of the i-th parameter's elements read in callee
+	elemReads := func(cal *ssa.Function, i int) map[string]bool {
+		out := map[string]bool{}
+		prm := cal.Params[i]
+		isElemAddr := func(v ssa.Value) bool {
+			ia, ok := v.(*ssa.IndexAddr)
+			return ok && ia.X == ssa.Value(prm)
+		}
+		for _, b := range cal.Blocks {
+			for _, in := range b.Instrs {
+				switch x := in.(type) {
+				case *ssa.FieldAddr:
+					if isElemAddr(x.X) {
+						if f := core.FieldOf(x); f != nil {
+							out[f.Name()] = true
+						}
+					}
+					// element copied to a local first
+					if ld, ok := x.X.(*ssa.Alloc); ok {
+						for _, sv := range core.StoresTo(ld) {
+							if l2, ok := sv.(*ssa.UnOp); ok && l2.Op == token.MUL && isElemAddr(l2.X) {
+								if f := core.FieldOf(x); f != nil {
+									out[f.Name()] = true
+								}
+							}
+						}
+					}
+				case *ssa.Field:
+					if ld, ok := x.X.(*ssa.UnOp); ok && ld.Op == token.MUL && isElemAddr(ld.X) {
+						if f := core.FieldOf(x); f != nil {
+							out[f.Name()] = true
+						}
+					}
+				}
+			}
+		}
+		return out
+	}
+	n := 0
+	for _, b := range addStat.Blocks {
+		for _, in := range b.Instrs {
+			c, ok := in.(*ssa.Call)
+			if !ok {
+				continue
+			}
+			cal := core.StaticCallee(c.Common())
+			if cal == nil || cal.Pkg == nil || cal.Pkg.Pkg.Path() != pkgEvent || cal.Blocks == nil {
+				continue
+			}
+			for i, a := range c.Call.Args {
+				sl, ok := a.Type().Underlying().(*types.Slice)
+				if !ok {
+					continue
+				}
+				if _, isStruct := sl.Elem().Underlying().(*types.Struct); !isStruct {
+					continue
+				}
+				lits, unknown := sources(a, map[ssa.Value]bool{})
+				if unknown || len(lits) == 0 || i >= len(cal.Params) {
+					continue
+				}
+				reads := elemReads(cal, i)
+				if len(reads) == 0 {
+					continue
+				}
+				n++
+				var missing []string
+				for f := range reads {
+					for _, l := range lits {
+						if !litFields(l)[f] {
+							missing = append(missing, f)
+							break
+						}
+					}
+				}
+				sort.Strings(missing)
+				r.Check(len(missing) == 0, "C20.record-shape", fmt.Sprintf("addStat->%s:arg%d", cal.Name(), i), p.Pos(c.Pos()), fmt.Sprintf("helper reads %v of each element; literals set them all; never set: %v", sortedKeys(reads), missing))
+			}
+		}
+	}
+	r.Floor("C20.record-shape", "literal-built slices handed to storing helpers", n, 1)
 }
